@@ -289,6 +289,11 @@ func TestC12(t *testing.T) {
 		nf := (1 + gen.Uniform(t, "nf", 5))
 		sp := genSpec(t, nf)
 		r1 := genTuple(t, nf, rawField(), "f")
+		if len(sp.fields2) > 0 && gen.Chance(t, "mainempty", 25) {
+			for _, f := range sp.fields { // the unique-index rule applies only when all main fields are empty
+				r1[f] = ""
+			}
+		}
 		var r2 []string
 		cls := gen.Uniform(t, "paircls", 4)
 		if cls == 0 {
